@@ -503,3 +503,5 @@ _quick("C08", "C16_staletmp", "(also under C16) a compaction that died after wri
 _quick("C07", "C08_valappend", "(also under C08) a log of valued records, restart, one more valued record persisted, second restart: every persisted hold comes back with its own value (a restart must not damage the value file it reopens for appending)", ["-witness", "4"])
 
 _quick("C06", "C06_race", "a hold with E = 3 s; in the deadline tick, right before the k-th acquisition of the key's mutex (k = 1..4, vfLockHook) its holder's re-entrant re-lock, or an update with a changed Count, comes in and is answered as a success: the period has restarted — the hold is still there after the tick, draws no EXPRIED before E has passed again, and ends by E + 2 s after the renewal", [], reach=["renewed-in-the-deadline-tick"], native=False)
+
+CHECKS["C14"]["harnesses"].append(dict(pkg="protocol", name="C14_properties", bound="the property block of a value frame: a SET frame built by NewLockCommandDataSetDataWithProperty with 1..3 properties (symbolic codes, values of 0..2 symbolic bytes each) and a value of 0..2 symbolic bytes, read back through LockResultCommandData.GetDataProperties / GetDataProperty / GetBytesValue: the same properties in order (empty values included, wherever they stand) and the same value", flags=["-witness", "20"], reach=["end"]))
